@@ -105,6 +105,9 @@ func vInitLog(r *Raft, L int, dlen int) *vAbsLog {
 	}
 	a.flushed = vU64("log.flushed0")
 	vAssume(a.flushed >= base && a.flushed <= last)
+	// what a snapshot covers is committed, and a node flushes what it counts as committed (leader: before advancing
+	// its commit index; follower: before acknowledging)
+	vAssume(a.flushed >= snapIndex)
 	vBaseTerm = prevTerm
 	return a
 }
